@@ -860,6 +860,17 @@ func init() {
 						ms = append(ms, c(tg, s(S, uint16(100*n+i))))
 					}
 					emit(joutLine("JOUT", "jsonmerged", ms))
+					// the same arrangement with one occurrence empty (a container without items), at every position
+					if n <= 4 {
+						for e := 0; e < n; e++ {
+							ms2 := append([]rscp.Message{}, ms...)
+							ms2[e] = c(ms[e].Tag)
+							emit(joutLine("JOUT", "jsonmerged", ms2))
+							if (pat+e)%4 == 0 {
+								emit(joutLine("JOUT", "jsonmerged", []rscp.Message{c(C, ms2...)}))
+							}
+						}
+					}
 					if pat%5 == 0 {
 						emit(joutLine("JOUT", "jsonmerged", []rscp.Message{c(C, ms...)}))
 						emit(joutLine("JOUT", "jsonsimple", ms))
